@@ -345,6 +345,74 @@ def pnorm(M: Model, e: ast.AST) -> str:
     return norm(e2)
 
 
+def view_env(fnode: ast.AST) -> Dict[str, ast.AST]:
+    """locals that stand for an element of an indexable object (numpy row views, elements of a sequence):
+         row = X[i]                       row  -> X[i]
+         for i, v in enumerate(X)         v    -> X[i]
+         for a, b in zip(X, Y)            a    -> X[@zipN], b -> Y[@zipN]      (one synthetic index per loop: same position in both)
+         for v in X   (X a plain name)    v    -> X[@itN]
+    Only single-binding names are entered."""
+    env: Dict[str, ast.AST] = {}
+
+    def sub(base: ast.AST, idx: ast.AST) -> ast.AST:
+        return ast.Subscript(value=base, slice=idx, ctx=ast.Load())
+
+    def single(nm: str) -> bool:
+        return len(stores_to(fnode, nm)) == 1
+    for n in walk_no_nested(fnode):
+        if isinstance(n, ast.Assign) and len(n.targets) == 1 and isinstance(n.targets[0], ast.Name) and isinstance(n.value, ast.Subscript) \
+                and single(n.targets[0].id) and not isinstance(n.value.slice, ast.Slice):
+            env[n.targets[0].id] = n.value
+        elif isinstance(n, ast.For):
+            it, tg = n.iter, n.target
+            if isinstance(it, ast.Call) and dotted(it.func) == "enumerate" and len(it.args) == 1 and isinstance(tg, ast.Tuple) and len(tg.elts) == 2 \
+                    and isinstance(tg.elts[0], ast.Name) and isinstance(it.args[0], (ast.Name, ast.Attribute, ast.Subscript)):
+                if isinstance(tg.elts[1], ast.Name) and single(tg.elts[1].id):
+                    env[tg.elts[1].id] = sub(it.args[0], ast.Name(id=tg.elts[0].id, ctx=ast.Load()))
+            elif isinstance(it, ast.Call) and dotted(it.func) == "zip" and isinstance(tg, ast.Tuple) and len(tg.elts) == len(it.args) and not it.keywords:
+                k = ast.Name(id=f"@zip{getattr(n, 'lineno', 0)}", ctx=ast.Load())
+                for te, a in zip(tg.elts, it.args):
+                    if isinstance(te, ast.Name) and single(te.id) and isinstance(a, (ast.Name, ast.Attribute, ast.Subscript)):
+                        env[te.id] = sub(a, k)
+            elif isinstance(it, ast.Name) and isinstance(tg, ast.Name) and single(tg.id):
+                env[tg.id] = sub(it, ast.Name(id=f"@it{getattr(n, 'lineno', 0)}", ctx=ast.Load()))
+    return env
+
+
+def subst_views(e: ast.AST, env: Dict[str, ast.AST], depth: int = 4) -> ast.AST:
+    """copy of `e` with the view locals of `env` (see view_env) replaced by the element expressions they stand for"""
+    import copy as _copy
+
+    def rec(x, d):
+        class T(ast.NodeTransformer):
+            def visit_Name(self, n):
+                if isinstance(n.ctx, ast.Load) and n.id in env and d > 0:
+                    return rec(_copy.deepcopy(env[n.id]), d - 1)
+                return n
+        return T().visit(x)
+    return rec(_copy.deepcopy(e), depth)
+
+
+def flat_subscript(e: ast.AST, env: Optional[Dict[str, ast.AST]] = None, depth: int = 6):
+    """X[a][b, c] -> ('X', ['a', 'b', 'c']), looking through view locals of `env` (see view_env); None when the base is not a plain name"""
+    idx: List[str] = []
+    while depth > 0:
+        depth -= 1
+        while isinstance(e, ast.Subscript):
+            sl = e.slice
+            idx = ([norm(x) for x in sl.elts] if isinstance(sl, ast.Tuple) else [norm(sl)]) + idx
+            e = e.value
+        if isinstance(e, ast.Name) and env and e.id in env:
+            e = env[e.id]
+            continue
+        break
+    if isinstance(e, ast.Name):
+        return e.id, idx
+    if isinstance(e, ast.Attribute):
+        return norm(e), idx
+    return None
+
+
 def stores_to(fnode: ast.AST, name: str) -> List[ast.AST]:
     """statements that (re)bind local `name` in any way (assign, augassign, for target, with, comprehension excluded)"""
     out = []
